@@ -179,6 +179,7 @@ class World:
         self.ghost = {}          # name -> shape
         self.findings = {}       # 'qualname/obligation' -> [(finding id, witness clause)]
         self.spec_funcs = {}
+        self.global_overrides = {}   # 'module.name' -> fn(ex) -> Value (symbolic module-level state)
 
     def cls(self, name, **kw):
         self.classes[name] = ClassDecl(name, **kw)
@@ -284,7 +285,7 @@ class Path:
                 return k
         return n - 1
 
-    def assume(self, cond):
+    def assume(self, cond, tag=None):
         if isinstance(cond, bool):
             if not cond:
                 raise PathEnd()
@@ -293,9 +294,19 @@ class Path:
             # conjuncts are kept separately so that the quantifier-free ones
             # take part in feasibility checks
             for c in cond.children():
-                self.assume(c)
+                self.assume(c, tag)
             return
         self.pc.append(cond)
+        if tag is not None:
+            # label of the clause this hypothesis comes from (proof outlines:
+            # Contract.uses selects hypotheses by label)
+            if not hasattr(self, 'tags'):
+                self.tags = {}
+            self.tags[cond.get_id()] = (cond, tag)
+
+    def tag_of(self, f):
+        hit = getattr(self, 'tags', {}).get(f.get_id())
+        return hit[1] if hit is not None and hit[0].eq(f) else None
 
     # ---- heap
     def field_arrays(self, owner, field, shape):
@@ -334,7 +345,10 @@ class Path:
 
     def _assume_wf(self, v):
         """ids read from the heap are allocated"""
-        if isinstance(v, SRef):
+        if isinstance(v, STup):
+            for x in v.items:
+                self._assume_wf(x)
+        elif isinstance(v, SRef):
             self.pc.append(z3.And(v.id >= 0, v.id < self.alloc_now()))
         elif isinstance(v, SOpt) and isinstance(v.val, SRef):
             self.pc.append(z3.Or(v.isnone, z3.And(v.val.id >= 0,
@@ -432,6 +446,17 @@ def coerce(path, v, shape):
         if w and (w.is_subclass_decl(v.shape.cls, shape.cls) or
                   w.is_subclass_decl(shape.cls, v.shape.cls)):
             return SRef(shape, v.id)
+    if isinstance(shape, RefS) and shape.cls in CONTAINERS and CONTAINERS[shape.cls][0] == 'list' \
+            and isinstance(v, PyList) and path is not None:
+        # a list literal stored where a heap list is declared: allocate it
+        elem = CONTAINERS[shape.cls][1]
+        obj = SRef(shape, path.new_id())
+        items = container_fields(shape.cls)['items'].fresh('lit')
+        for i, x in enumerate(v.items):
+            items = items.shape.store(items, SV(IntS, z3.IntVal(i)), coerce(path, x, elem))
+        path.write_field(obj, 'items', items)
+        path.write_field(obj, 'len', SV(IntS, z3.IntVal(len(v.items))))
+        return obj
     if isinstance(v, SOpt) and not isinstance(shape, OptS):
         # caller must have established not-None
         return coerce(path, v.val, shape)
